@@ -84,7 +84,9 @@ RunCheck(thenGenerate) ==
 
 (* a configuration that `generate` cannot work with: no schemaOutput (and no schemaModuleSpecifier) although other outputs need to *)
 (* import the schema types.  It is rejected before anything is written; `check` alone does not care.                              *)
-BadGenConfig(p) == "noschema" \in GenOf(p)
+(* "runtimeDts": emitSchemaRuntime together with a `.d.ts` schema output (runtime code cannot go into a declaration file) - rejected   *)
+(* at the same point.  ("runtime" = emitSchemaRuntime with a `.ts` schema output is a working configuration.)                       *)
+BadGenConfig(p) == "noschema" \in GenOf(p) \/ "runtimeDts" \in GenOf(p)
 Command ==
   /\ stage = "command"
   /\ IF idx > Len(P.commands) THEN stage' = "output" /\ UNCHANGED <<P, idx, checked, named, cmdError, written, listed, exit>>
@@ -119,7 +121,7 @@ Expected(p) ==
   ELSE IF XOpsWith(p, "import") # {} THEN fail("import", XOpsWith(p, "import"), TRUE)
   ELSE IF XOpsWith(p, "check") \cup XOpsWith(p, "libcheck") \cup XOpsWith(p, "libvar") # {}
        THEN fail("opsCheck", XOpsWith(p, "check") \cup XOpsWith(p, "libcheck") \cup XOpsWith(p, "libvar"), TRUE)
-  ELSE IF "noschema" \in GenOf(p) /\ p.commands # <<"check">> THEN [exit |-> 1, failing |-> "config", some |-> {}, all |-> TRUE, writes |-> {}]
+  ELSE IF BadGenConfig(p) /\ p.commands # <<"check">> THEN [exit |-> 1, failing |-> "config", some |-> {}, all |-> TRUE, writes |-> {}]
   ELSE IF p.commands = <<"generate", "check">> THEN [exit |-> 1, failing |-> "misuse", some |-> {}, all |-> TRUE, writes |-> XOutputs(p)]
   ELSE [exit |-> 0, failing |-> "none", some |-> {}, all |-> TRUE,
         writes |-> IF p.commands = <<"check">> THEN {} ELSE XOutputs(p)]
